@@ -286,6 +286,8 @@ func (s *State) assumeWF(v Value) {
 			}
 		case RBlk:
 			s.assume(Lt(l, s.next))
+			// pointers may reach heap blocks and globals, never function ids or ghost state
+			s.assume(Gt(l, IntLit(-2000000000)))
 			if i+3 < len(lay) && lay[i+2].Role == RLen {
 				// backing arrays of slices are heap blocks (globals and ghost state have negative ids)
 				s.assume(Ge(l, IntLit(0)))
@@ -481,6 +483,23 @@ func (s *State) havocBlock(blk *Term) {
 			continue
 		}
 		fresh := s.e.sy.Fresh("hv"+k.String(), ArraySort(SInt, k.Sort()))
+		s.mem[k] = s.define("M"+k.String(), Store(s.memOf(k), blk, fresh))
+	}
+}
+
+// havocRange replaces offsets [off, off+n) of a block (all kinds); everything else in the block is kept.
+func (s *State) havocRange(blk, off, n *Term) {
+	if !s.isLocal(blk) {
+		s.dirty()
+	}
+	for _, k := range allKinds {
+		if k == KR {
+			continue
+		}
+		old := Select(s.memOf(k), blk)
+		fresh := s.e.sy.Fresh("hr"+k.String(), ArraySort(SInt, k.Sort()))
+		i := s.e.sy.Fresh("i", SInt)
+		s.assumeTagged(Forall([]*Term{i}, Implies(Or(Lt(i, off), Ge(i, Add(off, n))), Eq(mk("select", k.Sort(), fresh, i), mk("select", k.Sort(), old, i)))), "range-frame")
 		s.mem[k] = s.define("M"+k.String(), Store(s.memOf(k), blk, fresh))
 	}
 }
